@@ -416,6 +416,46 @@ def check_large(case, ctx):
     ctx.nt(len(hull) >= 5)
 
 
+# ---------------------------------------------------------------- large grids through project_grid
+@st.composite
+def large_proj_cases(draw):
+    return dict(nr=draw(st.sampled_from([90, 150, 200])), nc=draw(st.sampled_from([131, 120, 257])), method=draw(st.sampled_from(["linear", "nearest", "cubic"])),
+                ax=draw(st.sampled_from([2.0, 0.5, 111.0])), ay=draw(st.sampled_from([3.0, 0.25, 111.0])), bx=draw(st.sampled_from([0.0, 1e4])), hole=draw(st.booleans()))
+
+
+def check_large_proj(case, ctx):
+    """tens of thousands of nodes, increasing affine projection, no antialiasing: output node (i, j) is the projected input node (i, j), so the values come
+    back unchanged wherever the input had data and every node strictly inside the hull of the data is finite"""
+    nr, nc = case["nr"], case["nc"]
+    east, north = 100.0 + 2.0 * np.arange(nc), -50.0 + 1.5 * np.arange(nr)
+    ee, nn = np.meshgrid(east, north)
+    vals = 3.0 + 0.25 * ee - 0.5 * nn  # a plane: linear and cubic interpolation reproduce it, nearest returns the node itself
+    if case["hole"]:
+        vals[nr // 3:nr // 3 + 4, nc // 2:nc // 2 + 5] = np.nan
+    grid = xr.DataArray(vals, coords={"easting": east, "northing": north}, dims=("northing", "easting"), name="plane")
+    proj = lambda e, n: (case["ax"] * np.asarray(e) + case["bx"], case["ay"] * np.asarray(n) - 7.0)  # noqa: E731
+    out = vd.project_grid(grid, proj, method=case["method"], antialias=False)
+    res = np.asarray(out.values)
+    ctx.check(res.shape == (nr, nc), "result shape %s, expected the input's shape %s", res.shape, (nr, nc))
+    ctx.check(out.name == "plane", "the name of the grid was not kept")
+    have = ~np.isnan(vals)
+    # interior = at least two cells away from the border of the grid and from the hole
+    inner = np.zeros_like(have)
+    inner[2:-2, 2:-2] = True
+    if case["hole"]:
+        inner[nr // 3 - 2:nr // 3 + 6, nc // 2 - 2:nc // 2 + 7] = False
+    missing = inner & np.isnan(res)
+    if missing.any():
+        i, j = np.argwhere(missing)[0]
+        raise Violation("node (row %d, column %d) of a %d x %d grid lies well inside the hull of the projected data but is NaN (%s, no antialiasing); %d such nodes" % (i, j, nr, nc, case["method"], int(missing.sum())))
+    bad = inner & have & (np.abs(res - vals) > 1e-6 * np.nanmax(np.abs(vals)))
+    if bad.any():
+        i, j = np.argwhere(bad)[0]
+        raise Violation("projected node (row %d, column %d) of a %d x %d grid holds %r, its pre-image node holds %r (%s, affine projection, no antialiasing)" % (i, j, nr, nc, float(res[i, j]), float(vals[i, j]), case["method"]))
+    ctx.label(case["method"], "%dx%d" % (nr, nc), "hole" if case["hole"] else "no_hole")
+    ctx.nt(True)
+
+
 SUBCHECKS = [
     Sub("convexhull_mask", check_hull, strategy=hull_cases(), quick=500, thorough=3000, shards_quick=2,
         doc="mask vs exact hull membership, invariant under scale/aspect/offset placement, array vs grid form, optional projection"),
@@ -425,4 +465,6 @@ SUBCHECKS = [
         doc="Datasets, non-2D arrays and unknown methods are rejected"),
     Sub("large", check_large, strategy=large_cases(), quick=8, thorough=40, heavy=True,
         doc="convexhull_mask for 20 000 - 100 000 query points / a 251 x 401 grid against the exact hull of up to 2 000 lattice points (vectorised orientation tests), with projections and UTM-sized offsets"),
+    Sub("large_project_grid", check_large_proj, strategy=large_proj_cases(), quick=6, thorough=40, heavy=True,
+        doc="project_grid on grids of 10 000 - 50 000 nodes (affine projection, no antialiasing, with and without a hole): shape, name, finite interior, values reproduced"),
 ]
